@@ -57,8 +57,20 @@ EMITS_DUP = {
 }
 
 
+# names that may be non-ASCII, in every position where the code slices or indexes a name by bytes
+NAME_FORMS = {
+    'dir': '<div v-{N}={{v1}}/>', 'dir-camel': '<div vA{N}={{v1}}/>', 'dir-arg': '<div v-foo:{N}={{v1}}/>', 'dir-arg-mod': '<Foo v-foo:a_{N}={{v1}}/>', 'dir-mod': '<div v-foo_{N}={{v1}}/>',
+    'dir-name-arg': '<Foo v-{N}:x_y={{[v1]}}/>', 'model-mod': '<input v-model_{N}={{v1}}/>', 'model-arg': '<Foo v-model:{N}={{v1}}/>', 'attr': '<div {N}={{v1}} on{N}={{v1}}/>',
+    'tag': '<{N} a="1">x</{N}>', 'tag-member': '<v1.{N}>x</v1.{N}>', 'ns-attr': '<div {N}:{N}="u"/>', 'on-attr': '<div on={{v1}} o{N}={{v1}}/>',
+}
+
+
 def make_skeleton(spec):
     leaves = []
+    if spec['kind'] == 'name':
+        leaves.append(Leaf('N', 'uname', spec['n']))
+        src = PRELUDE + 'const _0 = %s;\n' % NAME_FORMS[spec['form']]
+        return Skeleton('c08#name|%s|%d' % (spec['form'], spec['n']), src, leaves, {'optimize': 'sym', 'transform_on': 'sym'}, meta={'family': 'c08/name'}, variants=[{}])
     if spec['kind'] == 'value':
         src = PRELUDE + 'const _0 = <%s id="a" %s%s/>;\n' % (spec['host'], spec['dir'], VALUE_KINDS[spec['value']])
         opts = {'optimize': 'sym', 'merge_props': 'sym'}
@@ -97,6 +109,8 @@ def make_skeleton(spec):
 def extra_constraints(skel):
     cs = []
     for l in skel.leaves:
+        if l.kind == 'uname':
+            continue
         c = l.chars[0]
         cs.append(z3.And(z3.UGE(c, 65), z3.ULE(c, 90)))       # type names start with an upper-case letter (no keywords of length 2)
         cs.append(z3.Not(z3.And(l.chars[0] == ord('I'), l.chars[1] == ord('n'))) if False else z3.BoolVal(True))
@@ -190,6 +204,9 @@ def jobs(tier):
         out.append({'kind': 'edge', 'types': ['string'], 'emits': '(e: %s) => void' % t})
     for e in EMITS_DUP:
         out.append({'kind': 'emits', 'emits': e})
+    for f in NAME_FORMS:
+        for n in ((1, 2) if tier == 'quick' else (1, 2, 3)):
+            out.append({'kind': 'name', 'form': f, 'n': n})
     for g in TYPE_GRAPHS:
         for p in POSITIONS:
             out.append({'kind': 'graph', 'graph': g, 'pos': p})
